@@ -46,6 +46,8 @@ impl<S: BuildHasher + Clone + 'static> LFUPolicy<S> {
 
     pub fn push(&self, keys: Vec<u64>) -> Result<bool, CacheError> {
         if self.is_closed.load(Ordering::SeqCst) {
+            #[cfg(transparencies_stretto_verif)]
+            crate::verif::pushed(&keys, 2);
             return Ok(false);
         }
         let num_of_keys = keys.len() as u64;
@@ -53,19 +55,27 @@ impl<S: BuildHasher + Clone + 'static> LFUPolicy<S> {
             return Ok(true);
         }
         let first = keys[0];
+        #[cfg(transparencies_stretto_verif)]
+        let verif_keys = crate::verif::push_keys(&keys);
         select! {
             send(self.items_tx, keys) -> res =>
                 res
                 .map(|_| {
                     self.metrics.add(MetricType::KeepGets, first, num_of_keys);
+                    #[cfg(transparencies_stretto_verif)]
+                    crate::verif::pushed(&verif_keys, 0);
                     true
                 })
                 .map_err(|e| {
                     self.metrics.add(MetricType::DropGets, first, num_of_keys);
+                    #[cfg(transparencies_stretto_verif)]
+                    crate::verif::pushed(&verif_keys, 3);
                     CacheError::SendError(format!("sending on a disconnected channel, msg: {:?}", e.0))
                 }),
             default => {
                 self.metrics.add(MetricType::DropGets, first, num_of_keys);
+                #[cfg(transparencies_stretto_verif)]
+                crate::verif::pushed(&verif_keys, 1);
                 Ok(false)
             }
         }
@@ -90,6 +100,8 @@ pub(crate) struct PolicyProcessor<S> {
     inner: Arc<Mutex<PolicyInner<S>>>,
     items_rx: Receiver<Vec<u64>>,
     stop_rx: Receiver<()>,
+    #[cfg(transparencies_stretto_verif)]
+    verif_guard: crate::verif::counters::WorkerGuard,
 }
 
 impl<S: BuildHasher + Clone + 'static> PolicyProcessor<S> {
@@ -103,6 +115,8 @@ impl<S: BuildHasher + Clone + 'static> PolicyProcessor<S> {
             inner,
             items_rx,
             stop_rx,
+            #[cfg(transparencies_stretto_verif)]
+            verif_guard: crate::verif::counters::WorkerGuard::policy(),
         }
     }
 
@@ -124,6 +138,8 @@ impl<S: BuildHasher + Clone + 'static> PolicyProcessor<S> {
         match items {
             Ok(items) => {
                 let mut inner = self.inner.lock();
+                #[cfg(transparencies_stretto_verif)]
+                crate::verif::applied(&items);
                 inner.admit.increments(items);
             }
             #[cfg(feature = "log")]
